@@ -163,6 +163,11 @@ struct HbConsRun : NodeEnv {
             if (e && tk(e->time) > 0) { if (fx.appRx) fail("hbcons/consumed-and-passed-on", "heartbeat of a monitored node also handed to the application callback"); int d = decode(st); if (d != e->last) ec.push_back({node, d}); e->last = d; if (!e->active) cov.hit("monitoring-started"); e->active = true; e->deadline = now() + tk(e->time); }
             else if (!e) { if (m == M_STOP ? fx.appRx > 1 : fx.appRx != 1) fail("hbcons/unmonitored-not-passed-on", "heartbeat of an unmonitored node handed to the application callback " + std::to_string(fx.appRx) + " times"); cov.hit("hb-unmonitored-node"); }
         }
+        else if (k == "xhb") {   // a frame that only *looks* like a heartbeat in its low 11 bits: 29 bit identifier, flag bits above bit 10 - nobody's heartbeat, it belongs to the application
+            static const uint32_t hi[] = {0x18FEF000u, 0x0CF00000u, 0x40000000u, 0x20000000u, 0x00000800u, 0x1FFFF800u}; uint8_t node = (uint8_t)o.arg(0), st = (uint8_t)o.arg(1);
+            Fx fx = deliver(Frame(hi[(size_t)o.arg(2) % 6] | 0x700u | node, 1, {st})); cov.hit("frame-with-heartbeat-like-low-bits"); if (configured(node)) { cov.hit("heartbeat-like-frame-for-a-monitored-node"); nontrivial = true; }
+            if (m == M_STOP ? fx.appRx > 1 : fx.appRx != 1) fail("hbcons/foreign-frame-consumed", "frame " + hex(hi[(size_t)o.arg(2) % 6] | 0x700u | node) + " handed to the application callback " + std::to_string(fx.appRx) + " times (it is no heartbeat)");
+        }
         else if (k == "write") {
             if (m == M_STOP) return;
             int n = (int)(o.arg(0) % nEnt); uint8_t node = (uint8_t)o.arg(1); uint16_t time = (uint16_t)o.arg(2); if (node < 1 || node > 127) node = 1; if (time && tk(time) == 0) return;
@@ -209,7 +214,8 @@ Plan gen_hbcons(Rng &r, bool thorough) {
     auto anyNode = [&]() { return nodes[r.below(r.chance(4, 5) ? (uint32_t)std::min(ne + 1, 5) : 5)]; };
     for (int i = 0; i < n; i++) {
         int c = (int)r.below(20);
-        if (c < 6) p.ops.push_back(Op("hb", {anyNode(), r.pick<int64_t>({5, 5, 5, 127, 4, 0, 3})}));
+        if (c < 6 && r.chance(1, 12)) p.ops.push_back(Op("xhb", {anyNode(), r.pick<int64_t>({5, 127, 4, 0}), (int64_t)r.below(6)}));
+        else if (c < 6) p.ops.push_back(Op("hb", {anyNode(), r.pick<int64_t>({5, 5, 5, 127, 4, 0, 3})}));
         else if (c < 12) { int64_t T = r.pick<int64_t>({5, 10, 20, 50}) * (int64_t)f / 1000; p.ops.push_back(Op("tick", {r.chance(1, 15) ? 300 * T : r.pick<int64_t>({1, T - 1, T, T + 1, 2 * T, T / 2, 3 * T + 1})})); }
         else if (c < 16) p.ops.push_back(Op("write", {(int64_t)r.below((uint32_t)ne), anyNode(), r.chance(1, 3) ? 0 : r.pick<int64_t>({5, 10, 20, 50})}));
         else if (c == 16 && r.chance(1, 3)) p.ops.push_back(Op("evscript", {(int64_t)r.below((uint32_t)ne), anyNode()}));
